@@ -621,14 +621,8 @@ def dtype_rules(chk, S):
         return
     src = u.args[0]
     flat_dtype = T.mk("attr", (T.mk("tree.ravel", (x,)), "dtype"))
-    ok = False
-    if isinstance(src, T.Term) and src.op == "tree.tree_map" and len(src.args) == 2 and src.args[1] is x and isinstance(src.args[0], T.Term) and src.args[0].op == "lam":
-        body = src.args[0].args[1]
-        # leaf -> asarray(leaf, dtype=<dtype of the raveled container>)  /  leaf.astype(<that dtype>)
-        if isinstance(body, T.Term) and body.op == "np.asarray" and body.kwargs.get("dtype", body.args[1] if len(body.args) > 1 else None) is flat_dtype:
-            ok = True
-        if isinstance(body, T.Term) and body.op == "mcall" and body.args[1] == "astype" and len(body.args) > 2 and body.args[2] is flat_dtype:
-            ok = True
+    # the interpreter strips value-preserving casts from the example of a ravel_pytree call and records the dtype on the closure
+    ok = src is x and u.kwargs.get("cast_to") is flat_dtype
     r4.require(ok, "DenseTreeFlatten.from_example unravel closure", "derived from the container with every leaf cast to the common dtype",
-               f"unravel closure of {T.show(src, 5)}: ravel_pytree's unravel() restores each leaf's own dtype, so a container with mixed dtypes "
+               f"unravel closure of {T.show(src, 5)} (leaves cast to {T.show(u.kwargs.get('cast_to'), 3)}): ravel_pytree's unravel() restores each leaf's own dtype, so a container with mixed dtypes "
                "(integer initial values, float derivatives) has its mean truncated whenever it is unflattened", DENSE)
